@@ -1062,6 +1062,9 @@ def mk_node_devcfgs(env: Env, cfgs) -> tuple:
     return tuple(out)
 
 
+QUANT_KEY = "quant_parameter_tensor_names"       # serde._QUANT_PARAMETER_TENSOR_NAMES_FIELD (documented meta key)
+
+
 def _meta_target(env: Env, kind: str, h):
     if kind == "m":
         if env.model is None:
@@ -1232,6 +1235,30 @@ def _apply(env: Env, op: dict) -> None:
         (env.G(op["g"]).inputs if k[:3] == "gin" else env.G(op["g"]).outputs).insert(op["i"], env.V(op["v"]))
     elif k in ("gin_set", "gout_set"):
         (env.G(op["g"]).inputs if k[:3] == "gin" else env.G(op["g"]).outputs)[op["i"]] = env.V(op["v"])
+    elif k == "gio":                         # the whole MutableSequence API of graph.inputs / graph.outputs
+        lst = env.G(op["g"]).inputs if op["io"] == "in" else env.G(op["g"]).outputs
+        a = op["action"]
+        sl = slice(op.get("start"), op.get("stop"), op.get("step"))
+        if a == "del":
+            del lst[op["i"]]
+        elif a == "del_slice":
+            del lst[sl]
+        elif a == "remove":
+            lst.remove(env.V(op["v"]))
+        elif a == "clear":
+            lst.clear()
+        elif a == "extend":
+            lst.extend(_present(env.v, op["vs"]))
+        elif a == "set_slice":
+            lst[sl] = _present(env.v, op["vs"])
+        else:
+            raise ValueError(f"unknown gio action {a}")
+    elif k == "set_quant":                   # quantization annotation (TensorAnnotation) of a value
+        v = env.V(op["v"])
+        if op.get("items") is None:
+            v.meta.pop(QUANT_KEY, None)
+        else:
+            v.meta[QUANT_KEY] = dict(op["items"])
     elif k == "init_set":
         v = env.V(op["v"])
         env.G(op["g"]).initializers[op["key"] if "key" in op else v.name] = v
@@ -1299,7 +1326,8 @@ EDIT_OPS = {"append", "extend", "insert_before", "insert_after", "remove", "move
             "set_type", "set_shape", "set_dtype", "set_doc", "set_meta", "set_const", "gin_append", "gout_append",
             "gin_pop", "gout_pop", "gin_insert", "gout_insert", "gin_set", "gout_set", "init_set", "init_register",
             "init_pop", "graph_set", "graph_meta", "opset", "model_set", "model_meta", "func_set",
-            "devcfg_add", "devcfg_remove", "shard", "set_stage", "node_devcfg", "reload", "meta_edit", "tensor_doc"}
+            "devcfg_add", "devcfg_remove", "shard", "set_stage", "node_devcfg", "reload", "meta_edit", "tensor_doc",
+            "gio", "set_quant"}
 
 
 def build(recipe: dict):
@@ -1553,7 +1581,7 @@ class Gen:
         if not fn:
             for _ in range(r.choice([0, 1, 1, 2, 3]) if depth == 0 else r.choice([0, 0, 0, 1])):
                 t = self.new_tensor()
-                if ins and depth == 0 and r.random() < 0.2:
+                if ins and r.random() < (0.2 if depth == 0 else 0.3):
                     v = r.choice(ins)
                     if v in inits:
                         continue
@@ -1695,8 +1723,113 @@ class Gen:
                 self.emit(dict(self.devcfg_fields(), op="devcfg_add"))
             for _ in range(r.randrange(1, 6)):
                 self.gen_shard()
+        if r.random() < 0.2:
+            for _ in range(r.randrange(1, 4)):
+                self.gen_quant()
         if r.random() < 0.3:
             self.emit({"op": "reload"})          # the edit history starts from a proto-backed model
+
+    # ---- graph.inputs / graph.outputs as MutableSequences: duplicates, del, slices, remove, clear, extend
+    def gen_gio(self, gid, wild=False) -> None:
+        r = self.rng
+        g = self.env.g[gid]
+        io = "out" if r.random() < 0.75 else "in"
+        lst = g.outputs if io == "out" else g.inputs
+        own = self.usable(self.own_values(gid))
+        free = lambda v: io == "out" or wild or not v.uses()      # noqa: E731  (dropping a used input frees it)
+        a = r.choice(["dup", "dup", "del", "del", "del_slice", "remove", "extend", "set_slice", "clear"])
+        op = {"op": "gio", "g": gid, "io": io}
+        if a == "dup":
+            c = [self.hv[id(v)] for v in lst if id(v) in self.hv] if io == "out" else []
+            if c:
+                self.emit({"op": "gout_append" if r.random() < 0.7 else "gout_insert", "g": gid, "v": r.choice(c),
+                           "i": r.randrange(len(lst) + 1)})
+        elif a == "del" and len(lst):
+            i = r.randrange(len(lst))
+            if free(lst[i]):
+                self.emit(dict(op, action="del", i=i if r.random() < 0.7 else i - len(lst)))
+        elif a == "del_slice" and len(lst):
+            start = r.randrange(len(lst))
+            stop = min(len(lst), start + r.choice([1, 1, 2]))
+            if all(free(v) for v in lst[start:stop]):
+                self.emit(dict(op, action="del_slice", start=start, stop=stop, step=None))
+        elif a == "remove" and len(lst):
+            v = r.choice(list(lst))
+            if free(v) and id(v) in self.hv:
+                self.emit(dict(op, action="remove", v=self.hv[id(v)]))
+        elif a == "extend":
+            vs = [r.choice(own) for _ in range(r.choice([1, 2]))] if io == "out" and own else [self.new_value()]
+            self.emit(dict(op, action="extend", vs=vs))
+        elif a == "set_slice" and len(lst):
+            start = r.randrange(len(lst))
+            stop = min(len(lst), start + r.choice([1, 2]))
+            if all(free(v) for v in lst[start:stop]):
+                vs = [r.choice(own) for _ in range(r.choice([0, 1, 2]))] if io == "out" and own else [self.new_value()]
+                self.emit(dict(op, action="set_slice", start=start, stop=stop, step=None, vs=vs))
+        elif a == "clear" and io == "out" and r.random() < 0.4:
+            self.emit(dict(op, action="clear"))
+
+    def gen_dup_output_history(self, gid) -> None:
+        """A typed node output listed twice in graph.outputs, one listing deleted, then the other removed or replaced
+        (the value becomes an ordinary intermediate value again: flags, owner and value_info must follow)."""
+        r = self.rng
+        g = self.env.g[gid]
+        c = [self.hv[id(o)] for n in g for o in n.outputs
+             if id(o) in self.hv and o.name and value_payload_key(o) is not None]
+        if not c:
+            return
+        v = r.choice(c)
+        val = self.env.v[v]
+        while sum(1 for x in g.outputs if x is val) < 2:
+            self.emit({"op": "gout_append", "g": gid, "v": v})
+        first = [i for i, x in enumerate(g.outputs) if x is val]
+        q = r.random()
+        if q < 0.6:
+            self.emit({"op": "gio", "g": gid, "io": "out", "action": "del", "i": r.choice(first)})
+        elif q < 0.8:
+            self.emit({"op": "gio", "g": gid, "io": "out", "action": "del_slice", "start": first[0], "stop": first[0] + 1, "step": None})
+        else:
+            self.emit({"op": "gout_pop", "g": gid, "i": r.choice(first)})
+        rest = [i for i, x in enumerate(g.outputs) if x is val]
+        if not rest or r.random() < 0.15:
+            return
+        i = rest[0]
+        others = [x for x in self.usable(self.own_values(gid)) if x != v]
+        how = r.choice(["pop", "remove", "del", "set", "clear", "set_slice"])
+        if how == "pop":
+            self.emit({"op": "gout_pop", "g": gid, "i": i})
+        elif how == "remove":
+            self.emit({"op": "gio", "g": gid, "io": "out", "action": "remove", "v": v})
+        elif how == "del":
+            self.emit({"op": "gio", "g": gid, "io": "out", "action": "del", "i": i})
+        elif how == "set" and others:
+            self.emit({"op": "gout_set", "g": gid, "i": i, "v": r.choice(others)})
+        elif how == "set_slice" and others:
+            self.emit({"op": "gio", "g": gid, "io": "out", "action": "set_slice", "start": i, "stop": i + 1, "step": None,
+                       "vs": [r.choice(others)]})
+        else:
+            self.emit({"op": "gio", "g": gid, "io": "out", "action": "clear"})
+            if others:
+                self.emit({"op": "gout_append", "g": gid, "v": r.choice(others)})
+
+    # ---- quantization annotations (value.meta["quant_parameter_tensor_names"], GraphProto.quantization_annotation)
+    def gen_quant(self, gid=None) -> None:
+        r = self.rng
+        gids = [x for x in sorted(self.env.g) if not self.ginfo[x]["fn"]]      # FunctionProto cannot carry them
+        if not gids:
+            return
+        gid = gid if gid in gids and r.random() < 0.5 else r.choice(gids)
+        g = self.env.g[gid]
+        both = [v for v in g.inputs if v.is_initializer()]                     # input with a default value
+        pool = both if both and r.random() < 0.5 else \
+            list(g.inputs) + list(g.initializers.values()) + [o for n in g for o in n.outputs] + list(g.outputs)
+        pool = [v for v in pool if v.name and id(v) in self.hv]
+        if not pool:
+            return
+        v = r.choice(pool)
+        items = r.choice([{"SCALE_TENSOR": "scale", "ZERO_POINT_TENSOR": "zp"}, {"SCALE_TENSOR": "s"}, {}, None]) \
+            if v.meta.get(QUANT_KEY) else r.choice([{"SCALE_TENSOR": "scale", "ZERO_POINT_TENSOR": "zp"}, {"SCALE_TENSOR": "s"}])
+        self.emit({"op": "set_quant", "v": self.hv[id(v)], "items": items})
 
     # ---- metadata / doc string edits (clear / pop / overwrite / add), on every carrier
     def gen_meta_edit(self) -> None:
@@ -1792,7 +1925,8 @@ class Gen:
                  ("node_set", 4), ("node_meta", 1), ("attr_add", 3), ("attr_pop", 1), ("graph_set", 2),
                  ("graph_meta", 1), ("opset", 1), ("model_set", 1), ("model_meta", 1), ("func_set", 1),
                  ("shard", 4), ("devcfg_remove", 3), ("devcfg_add", 1), ("replace_sharded_input", 3),
-                 ("meta_edit", 14), ("reload", 2)]
+                 ("meta_edit", 14), ("reload", 2),
+                 ("gio", 8), ("dup_output_history", 5), ("set_quant", 4)]
         k = r.choices([x for x, _ in kinds], [w for _, w in kinds])[0]
         gid = self.pick_graph()
         g = self.env.g[gid]
@@ -1950,6 +2084,12 @@ class Gen:
             self.emit({"op": "model_set", "field": field, "val": val})
         elif k == "model_meta":
             self.emit({"op": "model_meta", "key": "mk2", "val": "mv2"})
+        elif k == "gio":
+            self.gen_gio(gid, wild)
+        elif k == "dup_output_history":
+            self.gen_dup_output_history(gid)
+        elif k == "set_quant":
+            self.gen_quant(gid)
         elif k == "reload":
             self.emit({"op": "reload"})
         elif k == "meta_edit":
@@ -2434,6 +2574,9 @@ class IsoCheck:
             d = _same_tensor(a.const_value, b.const_value, name_b=b.name if a.is_initializer() else None)
             if d:
                 self.err("const", f"{where}: tensor of {a.name!r}: {d}")
+        qa, qb = a.meta.get(QUANT_KEY) or None, b.meta.get(QUANT_KEY) or None
+        if qa != qb and not (a.graph is not None and id(a.graph) in self.fn_graphs):      # not carried by FunctionProto
+            self.err("quantization", f"{where}: value {a.name!r} quantization annotation {qa} vs {qb}")
         fa = (a.is_graph_input(), a.is_graph_output(), a.is_initializer())
         fb = (b.is_graph_input(), b.is_graph_output(), b.is_initializer())
         if fa != fb:
@@ -2767,6 +2910,8 @@ def py_serializable(model) -> list:
             bad.add("use-outside")
         if v.const_value is not None and not v.is_initializer():
             bad.add("const-not-init")
+        if v.meta.get(QUANT_KEY) and not v.name:
+            bad.add("quant-unnamed")              # a TensorAnnotation refers to its tensor by name
     if model.ir_version >= MULTI_DEVICE_IR_VERSION:
         bad |= set(device_conditions(model, R))
     held = [id(v.const_value) for v in R.values.values() if v.const_value is not None]
@@ -2815,6 +2960,17 @@ def run_case(recipe: dict, want_term: bool = True, repair=None) -> dict:
     inv = c17.oracle_invariants(model)        # C01's use-def / ownership invariants (a rejected edit may break them)
     res["conds"], res["inv"] = conds, inv
     enforce_iso = all(c in BENIGN for c in conds) and not inv
+    # Redundant links that disagree with each other (flag vs listing, uses vs inputs, producer vs outputs, ...)
+    # are reported, not merely used to switch (c) off: the property quantifies over the states edit histories
+    # reach, and e.g. a stale is_graph_output flag makes to_proto drop the value_info of the value.  Also after
+    # histories with REJECTED edits: since c5c2382 / a9e4f9d the tracked containers validate before mutating (the
+    # earlier GraphOutputs.__setitem__ defect is fixed); 10000 generated histories on the clean tree gave none.  (I1x/I2x/"I2/I4": nodes outside the model or a foreign output are
+    # what accepted edits such as remove(safe=False) legitimately produce - not reported.)
+    rejected = [k for k, st in env.log if st.startswith("reject")]
+    internal = [m for m in inv if m.split(":")[0] in ("I1", "I2", "I3", "I4", "I5", "I6", "I7")]
+    if internal and repair is None:
+        res["oracle"] += ["inv:" + m + (f" (rejected edits in the history: {rejected[:3]})" if rejected else "")
+                          for m in internal[:4]]
     # ---- converter (before to_proto): heap + observation with one interner for the whole case
     it = Interner()
     heap = mdl = o0 = None
